@@ -538,6 +538,8 @@ class IteratorQueue(IterableQueue[_ValueT]):
     self._enqueue_start = 0
     self._enqueue_stop = 0
     self._stopped = False
+    # A queue whose enqueuers feed this one: stopped together with this queue.
+    self._upstream: IteratorQueue | None = None
     self.ignore_error = ignore_error
 
   @classmethod
@@ -784,6 +786,10 @@ class IteratorQueue(IterableQueue[_ValueT]):
       else:
         self._dequeue_lock.notify_all()
     logging.info('chainable: %s', f'"{self.name}" stopping enqueue.')
+    if self._upstream is not None:
+      # Nobody consumes the upstream queue any more, its enqueuers would
+      # otherwise stay blocked on it forever.
+      self._upstream.maybe_stop(exc)
 
   def enqueue_from_iterator(self, iterator: Iterable[_ValueT]):
     """Iterates through a generator while enqueue its elements."""
@@ -1108,13 +1114,18 @@ def piter(
     assert input_iterable is not None
     return input_iterable
   thread_pool = _get_thread_pool(thread_pool)
-  return piter_fn(
+  result = piter_fn(
       iterator_fn,
       thread_pool=thread_pool,
       input_iterable=input_iterable,
       parallism=max_parallism,
       buffer_size=buffer_size,
   )
+  if isinstance(result, IteratorQueue) and isinstance(
+      input_iterable, IteratorQueue
+  ):
+    result._upstream = input_iterable  # pylint: disable=protected-access
+  return result
 
 
 def pmap(
